@@ -2,9 +2,9 @@ package main
 
 import (
 	"bytes"
-	"path/filepath"
 	"encoding/json"
 	"fmt"
+	"path/filepath"
 	"strings"
 
 	"github.com/ddddddO/gtree"
@@ -20,12 +20,12 @@ import (
 // ---- C09: dry run touches nothing and predicts the real run
 
 type c09Replay struct {
-	MissingTarget bool `json:"missing_target,omitempty"` // WithTargetDir names a directory that does not exist yet
-	Kind  string   `json:"kind"`
-	Depth []int    `json:"depth"`
-	Names []string `json:"names"`
-	Exts  []string `json:"exts"`
-	Route string   `json:"route"` // output-dry | mkdir-md-dry | mkdir-root-dry
+	MissingTarget bool     `json:"missing_target,omitempty"` // WithTargetDir names a directory that does not exist yet
+	Kind          string   `json:"kind"`
+	Depth         []int    `json:"depth"`
+	Names         []string `json:"names"`
+	Exts          []string `json:"exts"`
+	Route         string   `json:"route"` // output-dry | mkdir-md-dry | mkdir-root-dry
 }
 
 func c09Dry(route, doc string, root *model.Node, exts []string, target string) (out string, err error, pan string) {
@@ -187,6 +187,31 @@ func init() {
 					run(d, names, ex)
 				})
 			})
+		}
+		// size families: wide fan-out with files and directories, deep chain, many roots
+		for size := 1; size <= 40 && !c.Expired(); size++ {
+			if !c.Take() {
+				continue
+			}
+			var dw, dc, dr []int
+			var nw, nc, nr []string
+			dw, nw = append(dw, 1), append(nw, "wide")
+			for i := 0; i < size; i++ {
+				dw = append(dw, 2)
+				if i%2 == 1 {
+					nw = append(nw, fmt.Sprintf("f%02d.go", i))
+				} else {
+					nw = append(nw, fmt.Sprintf("d%02d", i))
+				}
+				dc = append(dc, i+1)
+				nc = append(nc, fmt.Sprintf("n%02d", i))
+				dr = append(dr, 1, 2)
+				nr = append(nr, fmt.Sprintf("root%02d", i), "k.go")
+			}
+			c.StateN(3)
+			run(dw, nw, [][]string{{".go"}})
+			run(dc, nc, [][]string{nil})
+			run(dr, nr, [][]string{{".go"}})
 		}
 		// names with format verbs and other printable oddities (the report is assembled with fmt)
 		verbs := []string{"x", "100%d", "a%%b", "%s", "%!v", "{}"}
